@@ -1030,6 +1030,10 @@ def check_c08(S, rt, how):
         for nm in ev[3]:
           if nm not in dele:
             fails.append({'kind': 'actual_delete_not_in_deleted_set', 'name': nm, 'stmt': _txt(S, cur)})
+          # "A target occurring in a del statement is also considered bound" (execution model,
+          # binding of names): the block that deletes a name owns it like one that assigns it
+          if nm not in set(str(q) for q in sc.bound):
+            fails.append({'kind': 'deleted_name_not_bound', 'name': nm, 'stmt': _txt(S, cur)})
   return fails
 
 
@@ -1073,7 +1077,9 @@ def c08_side_conditions(S):
       while anc is not None:
         cands |= anc.locals | anc.params
         anc = anc.parent
-      mfree = (names(sc.read) - names(sc.bound)) & cands
+      # (a name the function declares global is tracked in sc.globals; its reads are not
+      # closure reads even if an enclosing function has a local of the same name)
+      mfree = ((names(sc.read) - names(sc.bound)) & cands) - names(sc.globals)
       cfree = fi.free - exc_names
       if mfree - exc_names != cfree:
         bad.append('%s: free variables %s, CPython %s' % (node.name, sorted(mfree - exc_names), sorted(cfree)))
